@@ -24,6 +24,7 @@ def instances(tier):
                                                        2: ["alloc_tasks", "free_tasks", "alloc_aln_mem", "resize_aln_mem", "free_aln_mem"], 3: ["aln_param_init", "aln_param_free"],
                                                        4: ["kalign_arr_to_msa", "detect_alphabet", "detect_aligned", "set_sip_nsip", "kalign_free_msa"],
                                                        5: ["alloc_msa", "kalign_essential_input_check", "kalign_free_msa"]}[mode],
+                        gi_args=(["--replace-calls", "detect_alphabet:vk_detect_alphabet"] if mode == 4 else []),
                         bound="life cycle %d with %d objects" % (mode, n), desc="paired allocation: no leak, no double free, no use after free", cost=10 * n, leak_check=True, **common))
     for n, l in ([(2, 2)] if tier == "quick" else [(2, 1), (2, 2), (3, 2), (2, 3)]):
         out.append(Inst(ob="O2", name="arr_twice_n%d_l%d" % (n, l), harness="c16_arr.c", defs={"VK_N": n, "VK_L": l}, srcs=srcs, unwind=max(2 * n + 4, 12), unwind_pat=LIFE_UNW,
